@@ -147,6 +147,65 @@ def _enum_attr(node):
     return None
 
 
+class _NoEval(Exception):
+    pass
+
+
+def mini_eval_int_function(fn, arg):
+    """Evaluate a tiny integer function `def f(x): if …: return …; <logging call>; return …` on one argument.
+
+    Supports if/elif/else, return, comparisons (also chained), and/or/not, + - * // % & | ^ << >>, int literals, the
+    parameter; expression statements (logging) are skipped.  Raises _NoEval for anything else."""
+    pname = fn.args.args[0].arg
+
+    def ev(e):
+        if isinstance(e, ast.Constant) and isinstance(e.value, (int, bool)):
+            return e.value
+        if isinstance(e, ast.Name) and e.id == pname:
+            return arg
+        if isinstance(e, ast.BoolOp):
+            vals = [ev(v) for v in e.values]
+            return all(vals) if isinstance(e.op, ast.And) else any(vals)
+        if isinstance(e, ast.UnaryOp) and isinstance(e.op, ast.Not):
+            return not ev(e.operand)
+        if isinstance(e, ast.BinOp):
+            a, b = ev(e.left), ev(e.right)
+            ops = {ast.Add: lambda: a + b, ast.Sub: lambda: a - b, ast.Mult: lambda: a * b, ast.FloorDiv: lambda: a // b, ast.Mod: lambda: a % b,
+                   ast.BitAnd: lambda: a & b, ast.BitOr: lambda: a | b, ast.BitXor: lambda: a ^ b, ast.LShift: lambda: a << b, ast.RShift: lambda: a >> b}
+            if type(e.op) in ops:
+                return ops[type(e.op)]()
+        if isinstance(e, ast.Compare):
+            left = ev(e.left)
+            for op, c in zip(e.ops, e.comparators):
+                r = ev(c)
+                ok = {ast.Gt: left > r, ast.GtE: left >= r, ast.Lt: left < r, ast.LtE: left <= r, ast.Eq: left == r, ast.NotEq: left != r}.get(type(op))
+                if ok is None:
+                    raise _NoEval()
+                if not ok:
+                    return False
+                left = r
+            return True
+        raise _NoEval()
+
+    def run(body):
+        for st in body:
+            if isinstance(st, ast.Return):
+                return ("ret", ev(st.value))
+            if isinstance(st, ast.If):
+                r = run(st.body) if ev(st.test) else run(st.orelse)
+                if r is not None:
+                    return r
+            elif isinstance(st, ast.Expr):
+                continue  # docstring / logging
+            else:
+                raise _NoEval()
+        return None
+    r = run(fn.body)
+    if r is None:
+        raise _NoEval()
+    return int(r[1])
+
+
 def gen_MbootConsts():
     meta = {"sources": [SER, BULK, CMD, ERR, PROP, MCU, CRC], "formats": {}, "notes": []}
     ser, bulk, cmd, err, prop, mcu, crc = (parse(p) for p in (SER, BULK, CMD, ERR, PROP, MCU, CRC))
@@ -266,7 +325,16 @@ def gen_MbootConsts():
                 consts.append((type(n.ops[0]).__name__, n.comparators[0].value))
             if isinstance(n, ast.Return) and isinstance(n.value, ast.Constant):
                 consts.append(("Return", n.value.value))
-    L.append(f"def clampDownShape : List (String × Nat) := [{', '.join(f'(\"{o}\", {v})' for o, v in consts)}]")
+    L.append(f"def clampDownShape : List (String × Nat) := [{', '.join(f'(\"{o}\", {v})' for o, v in consts)}]  -- informative only")
+    # semantic table of _clamp_down_memory_id: evaluated on 0..300 and some big values (robust against harmless rewrites)
+    rows = []
+    try:
+        for x in list(range(0, 301)) + [511, 512, 65535, 65536, 0xFFFFFFFF]:
+            rows.append((x, mini_eval_int_function(cl, x)))
+    except (_NoEval, AttributeError, IndexError, ZeroDivisionError):
+        rows = [(0, 999999)]
+        meta["notes"].append("_clamp_down_memory_id could not be evaluated statically")
+    L.append(f"def clampDownTable : List (Nat × Nat) := [{', '.join(f'({a}, {b})' for a, b in rows)}]")
     # ---- decisions of the state machine that are comparisons with enum members:
     # for each function, the ordered list of (operator, Enum.MEMBER) comparisons
     decisions = {}
